@@ -36,12 +36,15 @@ type ServerConn struct {
 	rbuf *bufio.Reader
 	wbuf *bufio.Writer
 	req  *Request
+
+	conn io.Closer // the connection as accepted (rwc is reset by Close)
 }
 
 func newServerConn(conn net.Conn) *ServerConn {
 	c := new(ServerConn)
 	c.RemoteAddr = conn.RemoteAddr().String()
 	c.rwc = conn
+	c.conn = conn
 
 	c.rbuf = bufio.NewReader(c.rwc)
 	c.wbuf = bufio.NewWriter(c.rwc)
@@ -58,6 +61,13 @@ func (c *ServerConn) Close() {
 
 func (c *ServerConn) Shutdown() {
 	c.closeAfterReply = true
+}
+
+// abort ends the connection from outside its serving goroutine: a blocked read
+// returns and the reply of a request in progress can no longer be delivered.
+func (c *ServerConn) abort() {
+	c.closeAfterReply = true
+	c.conn.Close()
 }
 
 func overdue(recvtime, now time.Time) bool {
@@ -312,6 +322,25 @@ func (s *Server) Serve() (e error) {
 		}
 		s.Unlock()
 		time.Sleep(1e8)
+	}
+	// Connections that are still open after the grace period are idle ones
+	// (Shutdown only makes a connection close after its next request). Close
+	// them now and wait for their goroutines: the caller is about to close the
+	// store, and a request arriving meanwhile would still be served and
+	// acknowledged although its record is never flushed.
+	s.Lock()
+	for _, conn := range s.conns {
+		conn.abort()
+	}
+	s.Unlock()
+	for i := 0; i < 100; i++ {
+		s.Lock()
+		n := len(s.conns)
+		s.Unlock()
+		if n == 0 {
+			break
+		}
+		time.Sleep(1e7)
 	}
 	logger.Infof("mc server %s shutdown ", s.addr)
 	return nil
